@@ -181,3 +181,143 @@ Proof.
 Qed.
 
 (* TREES: appended below *)
+
+(* ---- AVL trees: index words of wbytes bytes (1 or 4), key and value field
+   types given by [lay].  In the model a handle IS the state decoded from the
+   bytes ([decode], which knows nothing of addresses: a copy of the bytes
+   elsewhere is the same list), the mutable view additionally runs
+   [open_mut] (from_bytes_mut's header logic).  Each theorem is closed by
+   [exact] of a lemma proved in Avl/DocFacts.v / Avl/Alloc.v.  [kv_fits] and
+   [hdr_fits] are spelled out in C10_avl_defs. ---- *)
+From Stevia Require Import Avl.Impl Avl.Tree Avl.Rep Avl.Spec Avl.TreeInv Avl.TreeOps Avl.Alloc Avl.Inv
+  Avl.LinkInsert Avl.LinkSteps Avl.Format Avl.FormatFacts Avl.Balance Avl.DocFacts.
+(* Avl/WordsOk.v: the word invariant [words_ok] (spelled out, and shown to
+   hold after every history, in C10_avl_words_ok_*_final), which with the
+   master invariant implies [hdr_fits]; the [_final] theorems below are the
+   [hdr_fits]-premised ones with [words_ok] instead *)
+From Stevia Require Import Avl.WordsOk.
+
+(* the handle re-opened from the bytes is the very same state: it reports
+   the same contents and answers every operation identically *)
+Theorem C04_avl_decode_encode : forall wbytes lay,
+  wbytes = 1%nat \/ wbytes = 4%nat -> 0 < ksz lay -> 0 < vsz lay ->
+  forall s t fr term,
+  Inv (bits_of wbytes) s t fr term -> kv_fits lay t -> hdr_fits wbytes s term ->
+  decode wbytes lay (encode wbytes lay s) = Some s.
+Proof. exact inv_decode_encode. Qed.
+Print Assumptions C04_avl_decode_encode.
+
+Theorem C04_avl_decode_encode_final : forall wbytes lay,
+  wbytes = 1%nat \/ wbytes = 4%nat -> 0 < ksz lay -> 0 < vsz lay ->
+  forall s t fr term,
+  Inv (bits_of wbytes) s t fr term -> kv_fits lay t -> words_ok (bits_of wbytes) s ->
+  decode wbytes lay (encode wbytes lay s) = Some s.
+Proof. exact inv_decode_encode_w. Qed.
+Print Assumptions C04_avl_decode_encode_final.
+
+(* a history interrupted at any point by dropping the handle and re-opening
+   from the bytes continues exactly as the uninterrupted one: same outputs,
+   same final state *)
+Theorem C04_avl_reopen_continues : forall wbytes lay,
+  wbytes = 1%nat \/ wbytes = 4%nat -> 0 < ksz lay -> 0 < vsz lay ->
+  forall s ops1 s1 t fr term ops2,
+  final_c (bits_of wbytes) s ops1 = Ok s1 ->
+  Inv (bits_of wbytes) s1 t fr term -> kv_fits lay t -> hdr_fits wbytes s1 term ->
+  exists s1', decode wbytes lay (encode wbytes lay s1) = Some s1' /\
+    run_c (bits_of wbytes) s (ops1 ++ ops2) =
+      run_c (bits_of wbytes) s ops1 ++ run_c (bits_of wbytes) s1' ops2 /\
+    final_c (bits_of wbytes) s (ops1 ++ ops2) = final_c (bits_of wbytes) s1' ops2.
+Proof. exact reopen_continues. Qed.
+Print Assumptions C04_avl_reopen_continues.
+
+Theorem C04_avl_reopen_continues_final : forall wbytes lay,
+  wbytes = 1%nat \/ wbytes = 4%nat -> 0 < ksz lay -> 0 < vsz lay ->
+  forall s ops1 s1 t fr term ops2,
+  final_c (bits_of wbytes) s ops1 = Ok s1 ->
+  Inv (bits_of wbytes) s1 t fr term -> kv_fits lay t -> words_ok (bits_of wbytes) s1 ->
+  exists s1', decode wbytes lay (encode wbytes lay s1) = Some s1' /\
+    run_c (bits_of wbytes) s (ops1 ++ ops2) =
+      run_c (bits_of wbytes) s ops1 ++ run_c (bits_of wbytes) s1' ops2 /\
+    final_c (bits_of wbytes) s (ops1 ++ ops2) = final_c (bits_of wbytes) s1' ops2.
+Proof. exact reopen_continues_w. Qed.
+Print Assumptions C04_avl_reopen_continues_final.
+
+Theorem C04_avl_run_app : forall bits ops1 s s1 ops2,
+  final_c bits s ops1 = Ok s1 ->
+  run_c bits s (ops1 ++ ops2) = run_c bits s ops1 ++ run_c bits s1 ops2.
+Proof. exact run_c_app. Qed.
+Print Assumptions C04_avl_run_app.
+
+(* re-opening, through the mutable view, a tree whose buffer size still
+   matches its capacity leaves every byte unchanged *)
+Theorem C04_avl_open_mut_same : forall bits s,
+  N.of_nat (length (nodes s)) <= cap s -> open_mut bits s = Ok s.
+Proof. exact open_mut_same. Qed.
+Print Assumptions C04_avl_open_mut_same.
+
+Theorem C04_avl_reopen_mut_same : forall wbytes lay,
+  wbytes = 1%nat \/ wbytes = 4%nat -> 0 < ksz lay -> 0 < vsz lay ->
+  forall s t fr term,
+  Inv (bits_of wbytes) s t fr term -> kv_fits lay t -> hdr_fits wbytes s term ->
+  N.of_nat (length (nodes s)) <= cap s ->
+  exists s0, decode wbytes lay (encode wbytes lay s) = Some s0 /\
+    open_mut (bits_of wbytes) s0 = Ok s0 /\ encode wbytes lay s0 = encode wbytes lay s.
+Proof. exact inv_reopen_mut_same. Qed.
+Print Assumptions C04_avl_reopen_mut_same.
+
+Theorem C04_avl_reopen_mut_same_final : forall wbytes lay,
+  wbytes = 1%nat \/ wbytes = 4%nat -> 0 < ksz lay -> 0 < vsz lay ->
+  forall s t fr term,
+  Inv (bits_of wbytes) s t fr term -> kv_fits lay t -> words_ok (bits_of wbytes) s ->
+  N.of_nat (length (nodes s)) <= cap s ->
+  exists s0, decode wbytes lay (encode wbytes lay s) = Some s0 /\
+    open_mut (bits_of wbytes) s0 = Ok s0 /\ encode wbytes lay s0 = encode wbytes lay s.
+Proof. exact inv_reopen_mut_same_w. Qed.
+Print Assumptions C04_avl_reopen_mut_same_final.
+
+(* in general (the buffer has grown) the mutable view keeps the tree - same
+   contents in the same slots - and claims the new records *)
+Theorem C04_avl_reopen_mut : forall wbytes lay,
+  wbytes = 1%nat \/ wbytes = 4%nat -> 0 < ksz lay -> 0 < vsz lay ->
+  forall s t fr term,
+  Inv (bits_of wbytes) s t fr term -> kv_fits lay t -> hdr_fits wbytes s term ->
+  sizecond (bits_of wbytes) s ->
+  exists s0 s' fr',
+    decode wbytes lay (encode wbytes lay s) = Some s0 /\ open_mut (bits_of wbytes) s0 = Ok s' /\
+    Inv (bits_of wbytes) s' t fr' term /\ cap s' = N.of_nat (length (nodes s)) /\
+    length (nodes s') = length (nodes s) /\
+    (N.of_nat (length (nodes s)) <= cap s -> s' = s /\ fr' = fr).
+Proof. exact inv_reopen_mut. Qed.
+Print Assumptions C04_avl_reopen_mut.
+
+Theorem C04_avl_reopen_mut_final : forall wbytes lay,
+  wbytes = 1%nat \/ wbytes = 4%nat -> 0 < ksz lay -> 0 < vsz lay ->
+  forall s t fr term,
+  Inv (bits_of wbytes) s t fr term -> kv_fits lay t -> words_ok (bits_of wbytes) s ->
+  sizecond (bits_of wbytes) s ->
+  exists s0 s' fr',
+    decode wbytes lay (encode wbytes lay s) = Some s0 /\ open_mut (bits_of wbytes) s0 = Ok s' /\
+    Inv (bits_of wbytes) s' t fr' term /\ cap s' = N.of_nat (length (nodes s)) /\
+    length (nodes s') = length (nodes s) /\
+    (N.of_nat (length (nodes s)) <= cap s -> s' = s /\ fr' = fr).
+Proof. exact inv_reopen_mut_w. Qed.
+Print Assumptions C04_avl_reopen_mut_final.
+
+(* ---- example: the history of C10_avl_example dropped after five operations
+   and re-opened from its bytes ---- *)
+Example C04_avl_example :
+  let ops1 := [OInsert 10 100; OInsert 20 200; OInsert 30 300; OInsert 40 400; OInsert 50 500]%Z in
+  let ops2 := [OInsert 60 600; OInsert 70 700; OInsert 45 450; ORemove 20; OGet 45]%Z in
+  exists s1 s1',
+    final_c 8 (init_c 9 10) ops1 = Ok s1 /\
+    decode 1 ex_lay8 (encode 1 ex_lay8 s1) = Some s1' /\ s1' = s1 /\
+    open_mut 8 s1' = Ok s1' /\
+    run_c 8 (init_c 9 10) (ops1 ++ ops2) = run_c 8 (init_c 9 10) ops1 ++ run_c 8 s1' ops2 /\
+    run_c 8 s1' ops2 =
+      [Ok (RSlot (Some 6)); Ok (RSlot (Some 7)); Ok (RSlot (Some 8)); Ok (RVal (Some 200%Z));
+       Ok (RVal (Some 450%Z))].
+Proof.
+  cbv zeta. eexists. eexists. split; [vm_compute; reflexivity|].
+  split; [vm_compute; reflexivity|]. split; [reflexivity|]. split; [vm_compute; reflexivity|].
+  split; vm_compute; reflexivity.
+Qed.
